@@ -18,6 +18,11 @@ from prtpy.packing.first_fit import decreasing as ffd
 
 
 
+def _python_number(value):
+    """ A numpy scalar (element of an array, value in a dict, result of a value function) as the equal Python number. """
+    return value.item() if isinstance(value, np.generic) else value
+
+
 def pack(
     algorithm: Callable,
     binsize: float,
@@ -67,7 +72,9 @@ def pack(
     else:  # items is a list
         item_names = items
         if valueof is None:
-            valueof = lambda item: item.item() if isinstance(item, np.generic) else item   # a Python number, not a numpy scalar: sums of numpy scalars of a narrow dtype (uint8, int16...) overflow
+            valueof = lambda item: item
+    given_valueof = valueof
+    valueof = lambda item: _python_number(given_valueof(item))   # sums of numpy scalars of a narrow dtype (uint8, int16...) overflow
     binner = outputtype.create_binner(valueof)
     bins = algorithm(binner, binsize, item_names, **kwargs)
     return outputtype.extract_output_from_binsarray(bins)
